@@ -132,6 +132,25 @@ def r03_2b(ctx, A):
                     'without an exit request the handler never re-raises: the job still gets its one READY'
                     if not raises else 'a task raising this exception gets no result message (re-raised at `%s`)'
                     % raises[0].text())
+                # ... and with an exit request only the handler's own SystemExit is let through: what a task's clean-up
+                # code (except SystemExit / finally) turned it into is the task's outcome and still gets its READY
+                allr = [x for x in cfg.nodes if x.id in cfg.live and x.id in body_ids and isinstance(x.ast, ast.Raise)]
+                wide = [x for x in allr if not q.has_guard(fi, x, lambda t: t.startswith('isinstance(') and
+                                                           'SystemExit' in t, True)]
+                ctx.ob('R03.2', 'workloop:only-the-termination-SystemExit-is-re-raised@except-%s' % (
+                    ast.unparse(h.type) if h.type else 'bare'), not wide, fi, wide[0] if wide else h,
+                    'every re-raise in the handler is under isinstance(exc, SystemExit)' if not wide else
+                    'once the termination flag is set any exception of the task is re-raised out of the loop: the job '
+                    'gets no result message and is reported as a lost worker instead of with its own error')
+            # everything that computes the result sits inside that try: the prepare_result hook too
+            hooks = [c for (n_, c) in q.calls(fi, 'self.prepare_result')]
+            for c in hooks:
+                inside_body = any(x is c for st in tr.body for x in ast.walk(st))
+                ctx.ob('R03.2', 'workloop:prepare_result-inside-the-task-try', inside_body, fi, c,
+                       'prepare_result(...) runs inside the try whose handler turns a failure into the job\'s result'
+                       if inside_body else
+                       'prepare_result runs outside the handler of the task call: when the hook raises, the exception '
+                       'leaves the loop, the worker dies and the announced job gets no result message')
             break
     q.need(n, 'Worker.workloop: the task call is not inside a try')
 
